@@ -773,6 +773,248 @@ theorem decode_outcome (req : Req) (raw : Bytes) :
     intro he; subst he; exact decode_total req raw h
   | unmodelled => exact Or.inr (Or.inr rfl)
 
+/-! ## G. the driver's comparator (`SortKey::cmp` over rank-abstracted values) is a strict total
+order on the keys of one plan -/
+
+theorem cmpPart_refl (d : Bool) (a : Option Int) : cmpPart d a a = .eq := by
+  cases a <;> simp [cmpPart]
+
+theorem cmpPart_swap (d : Bool) (a b : Option Int) : cmpPart d b a = (cmpPart d a b).swap := by
+  cases a <;> cases b <;> cases d <;> simp only [cmpPart, Ordering.swap] <;>
+    (rename_i x y; by_cases h1 : x < y <;> by_cases h2 : y < x <;> simp [h1, h2] <;> omega)
+
+theorem cmpPart_eq (d : Bool) (a b : Option Int) (h : cmpPart d a b = .eq) : a = b := by
+  cases a <;> cases b <;> simp only [cmpPart] at h <;> try cases h
+  · rfl
+  · rename_i x y
+    by_cases h1 : x < y <;> by_cases h2 : y < x <;> cases d <;> simp [h1, h2] at h <;>
+      (congr 1; omega)
+
+theorem cmpPart_trans (d : Bool) (a b c : Option Int) (h1 : cmpPart d a b = .lt) (h2 : cmpPart d b c = .lt) :
+    cmpPart d a c = .lt := by
+  cases a <;> cases b <;> cases c <;> simp only [cmpPart] at h1 h2 ⊢ <;> try cases h1 <;> try cases h2
+  all_goals try rfl
+  rename_i x y z
+  cases d <;> (by_cases p1 : x < y <;> by_cases p2 : y < x <;> by_cases p3 : y < z <;> by_cases p4 : z < y <;>
+    simp [p1, p2, p3, p4] at h1 h2 <;> (by_cases q1 : x < z <;> by_cases q2 : z < x <;> simp [q1, q2] <;> omega))
+
+
+theorem cmpParts_refl (ds : List Bool) (a : List (Option Int)) : cmpParts ds a a = .eq := by
+  induction ds generalizing a with
+  | nil => simp [cmpParts]
+  | cons d ds ih =>
+    cases a with
+    | nil => simp [cmpParts]
+    | cons x xs => simp [cmpParts, cmpPart_refl, ih]
+
+theorem cmpParts_swap (ds : List Bool) (a b : List (Option Int)) :
+    cmpParts ds b a = (cmpParts ds a b).swap := by
+  induction ds generalizing a b with
+  | nil => simp [cmpParts, Ordering.swap]
+  | cons d ds ih =>
+    cases a with
+    | nil => cases b <;> simp [cmpParts, Ordering.swap]
+    | cons x xs =>
+      cases b with
+      | nil => simp [cmpParts, Ordering.swap]
+      | cons y ys =>
+        simp only [cmpParts]
+        rw [cmpPart_swap d x y]
+        cases h : cmpPart d x y with
+        | eq => simp only [Ordering.swap]; exact ih xs ys
+        | lt => simp [Ordering.swap]
+        | gt => simp [Ordering.swap]
+
+theorem cmpParts_eq (ds : List Bool) (a b : List (Option Int)) (ha : a.length = ds.length)
+    (hb : b.length = ds.length) (h : cmpParts ds a b = .eq) : a = b := by
+  induction ds generalizing a b with
+  | nil =>
+    have : a = [] := List.length_eq_zero_iff.mp ha
+    have : b = [] := List.length_eq_zero_iff.mp hb
+    simp [*]
+  | cons d ds ih =>
+    cases a with
+    | nil => simp at ha
+    | cons x xs =>
+      cases b with
+      | nil => simp at hb
+      | cons y ys =>
+        simp only [cmpParts] at h
+        cases hxy : cmpPart d x y with
+        | eq =>
+          simp only [hxy] at h
+          have e1 := cmpPart_eq d x y hxy
+          have e2 := ih xs ys (by simpa using ha) (by simpa using hb) h
+          rw [e1, e2]
+        | lt => simp [hxy] at h
+        | gt => simp [hxy] at h
+
+theorem cmpParts_trans (ds : List Bool) (a b c : List (Option Int)) (ha : a.length = ds.length)
+    (hb : b.length = ds.length) (hc : c.length = ds.length)
+    (h1 : cmpParts ds a b = .lt) (h2 : cmpParts ds b c = .lt) : cmpParts ds a c = .lt := by
+  induction ds generalizing a b c with
+  | nil => simp [cmpParts] at h1
+  | cons d ds ih =>
+    cases a with
+    | nil => simp at ha
+    | cons x xs =>
+    cases b with
+    | nil => simp at hb
+    | cons y ys =>
+    cases c with
+    | nil => simp at hc
+    | cons z zs =>
+      simp only [cmpParts] at h1 h2 ⊢
+      cases hxy : cmpPart d x y with
+      | gt => simp [hxy] at h1
+      | lt =>
+        cases hyz : cmpPart d y z with
+        | gt => simp [hyz] at h2
+        | lt => simp [cmpPart_trans d x y z hxy hyz]
+        | eq =>
+          have := cmpPart_eq d y z hyz; subst this
+          simp [hxy]
+      | eq =>
+        have := cmpPart_eq d x y hxy; subst this
+        simp only [hxy] at h1
+        cases hyz : cmpPart d x z with
+        | gt => simp [hyz] at h2
+        | lt => simp
+        | eq =>
+          simp only [hyz] at h2 ⊢
+          exact ih xs ys zs (by simpa using ha) (by simpa using hb) (by simpa using hc) h1 h2
+
+theorem cmpNat_refl (a : Nat) : cmpNat a a = .eq := by simp [cmpNat]
+theorem cmpNat_eq (a b : Nat) (h : cmpNat a b = .eq) : a = b := by
+  unfold cmpNat at h
+  by_cases h1 : a < b <;> by_cases h2 : b < a <;> simp [h1, h2] at h
+  omega
+theorem cmpNat_lt (a b : Nat) : cmpNat a b = .lt ↔ a < b := by
+  unfold cmpNat
+  by_cases h1 : a < b <;> by_cases h2 : b < a <;> simp [h1, h2]
+theorem cmpNat_gt (a b : Nat) : cmpNat a b = .gt ↔ b < a := by
+  unfold cmpNat
+  by_cases h1 : a < b <;> by_cases h2 : b < a <;> simp [h1, h2]
+  omega
+
+/-- keys of one plan: as many parts as the plan has fields -/
+def KeyN (n : Nat) := { k : DKey // k.parts.length = n }
+
+def ltKeyN (dirs : List Bool) (a b : KeyN dirs.length) : Bool := ltKey dirs a.val b.val
+
+/-- **the comparator of the driver is a strict total order** on the keys of one plan (the
+generic `walk_complete_partial` therefore applies to it) -/
+theorem ltKeyN_strictTotal (dirs : List Bool) : StrictTotal (ltKeyN dirs) where
+  irrefl := by
+    intro a
+    simp [ltKeyN, ltKey, cmpKey, cmpParts_refl, cmpNat_refl]
+  trans := by
+    intro a b c hab hbc
+    obtain ⟨a, ha⟩ := a; obtain ⟨b, hb⟩ := b; obtain ⟨c, hc⟩ := c
+    simp only [ltKeyN, ltKey, cmpKey] at hab hbc ⊢
+    cases h1 : cmpParts dirs a.parts b.parts with
+    | gt => simp [h1] at hab
+    | lt =>
+      cases h2 : cmpParts dirs b.parts c.parts with
+      | gt => simp [h2] at hbc
+      | lt => simp [cmpParts_trans dirs _ _ _ ha hb hc h1 h2]
+      | eq =>
+        have := cmpParts_eq dirs _ _ hb hc h2
+        rw [← this, h1]
+    | eq =>
+      have e1 := cmpParts_eq dirs _ _ ha hb h1
+      simp only [h1] at hab
+      cases h2 : cmpParts dirs b.parts c.parts with
+      | gt => simp [h2] at hbc
+      | lt => rw [e1, h2]
+      | eq =>
+        have e2 := cmpParts_eq dirs _ _ hb hc h2
+        simp only [h2] at hbc
+        rw [e1, h2]
+        simp only
+        -- segment, then document
+        cases s1 : cmpNat a.seg b.seg with
+        | gt => simp [s1] at hab
+        | lt =>
+          have l1 := (cmpNat_lt _ _).mp s1
+          cases s2 : cmpNat b.seg c.seg with
+          | gt => simp [s2] at hbc
+          | lt =>
+            have l2 := (cmpNat_lt _ _).mp s2
+            have : cmpNat a.seg c.seg = .lt := (cmpNat_lt _ _).mpr (by omega)
+            simp [this]
+          | eq =>
+            have := cmpNat_eq _ _ s2
+            rw [← this, s1]
+        | eq =>
+          have q1 := cmpNat_eq _ _ s1
+          simp only [s1] at hab
+          cases s2 : cmpNat b.seg c.seg with
+          | gt => simp [s2] at hbc
+          | lt => rw [q1, s2]
+          | eq =>
+            simp only [s2] at hbc
+            rw [q1, s2]
+            simp only
+            cases d1 : cmpNat a.doc b.doc with
+            | gt => simp [d1] at hab
+            | eq => simp [d1] at hab
+            | lt =>
+              cases d2 : cmpNat b.doc c.doc with
+              | gt => simp [d2] at hbc
+              | eq => simp [d2] at hbc
+              | lt =>
+                have l1 := (cmpNat_lt _ _).mp d1
+                have l2 := (cmpNat_lt _ _).mp d2
+                have : cmpNat a.doc c.doc = .lt := (cmpNat_lt _ _).mpr (by omega)
+                simp [this]
+  total := by
+    intro a b hne
+    obtain ⟨a, ha⟩ := a; obtain ⟨b, hb⟩ := b
+    have hne' : a ≠ b := by
+      intro h; apply hne; subst h; rfl
+    simp only [ltKeyN, ltKey, cmpKey]
+    rw [cmpParts_swap dirs a.parts b.parts]
+    cases h1 : cmpParts dirs a.parts b.parts with
+    | lt => simp
+    | gt => simp [Ordering.swap]
+    | eq =>
+      have e1 := cmpParts_eq dirs _ _ ha hb h1
+      simp only [Ordering.swap]
+      cases s1 : cmpNat a.seg b.seg with
+      | lt => simp
+      | gt =>
+        have := (cmpNat_gt _ _).mp s1
+        have : cmpNat b.seg a.seg = .lt := (cmpNat_lt _ _).mpr this
+        simp [this]
+      | eq =>
+        have q1 := cmpNat_eq _ _ s1
+        have : cmpNat b.seg a.seg = .eq := by rw [q1]; exact cmpNat_refl _
+        simp only [this]
+        cases d1 : cmpNat a.doc b.doc with
+        | lt => simp
+        | gt =>
+          have := (cmpNat_gt _ _).mp d1
+          have : cmpNat b.doc a.doc = .lt := (cmpNat_lt _ _).mpr this
+          simp [this]
+        | eq =>
+          have q2 := cmpNat_eq _ _ d1
+          exfalso; apply hne'
+          cases a; cases b
+          simp only at e1 q1 q2
+          subst e1; subst q1; subst q2; rfl
+
+
+/-- `walk_complete_partial` instantiated with the comparator the driver runs -/
+theorem walk_complete_driver_partial (dirs : List Bool) (matched : List (KeyN dirs.length))
+    (hnd : matched.Nodup) (limit : Nat) (hl : 0 < limit) (hlc : limit ≤ Limits.real.maxCandidates)
+    (hn : matched.length ≤ Limits.real.maxAdvance + 1) :
+    ∃ pages, walkPages (ltKeyN dirs) Limits.real id matched limit (matched.length + 1) none = some pages ∧
+      (pages.map (·.hits)).flatten = sortKeys (ltKeyN dirs) matched ∧
+      (∀ r ∈ pages, r.total = matched.length) ∧ WalkShape pages limit :=
+  walk_complete_partial (ltKeyN_strictTotal dirs) Limits.real (by decide) id matched hnd
+    (fun _ _ => rfl) limit hl hlc hn
+
 /-! ## D. negative witnesses (decided by the kernel on concrete small inputs) and non-vacuity -/
 
 section Witness
